@@ -143,7 +143,7 @@ func (in *interp) site() string {
 }
 
 func shortFile(f string) string {
-	for _, p := range []string{"/repo/", "/root/go/pkg/mod/", "/usr/local/go/src/", "/verif/"} {
+	for _, p := range []string{repoDir + "/", "/root/go/pkg/mod/", "/usr/local/go/src/", "/verif/"} {
 		if i := strings.Index(f, p); i >= 0 {
 			return f[i+len(p):]
 		}
